@@ -1,4 +1,4 @@
-import MesaModel.Proofs.ContExp
+import MesaModel.Proofs.ContMetric
 /-!
 # C10 — both continuous spaces keep every position and answer range / k-nearest / distance queries exactly
 
@@ -31,7 +31,8 @@ theorem C10_legacy_assignment_rule (c : LCfg) (hw : c.WF) (p : P2) :
   ⟨torusAdj_inside c p, torusAdj_reject c p, torusAdj_wrap c hw p⟩
 
 /-- Experimental: a position inside `[min, max]` is stored as it is; outside, a bounded space rejects
-    the assignment (and the setter then raises) and a torus stores a point inside the space. -/
+    the assignment (and the setter then raises) and a torus stores `torus_correct(p)`, a point inside the space.
+    (What `torus_correct` returns, coordinate by coordinate: `C10_exp_wrap_is_periodic_image`.) -/
 theorem C10_exp_assignment_rule (c : ECfg) (hw : c.WF) (p : Pos) :
     (inBounds c.dims p = true → eassign c p = some p) ∧
     (inBounds c.dims p = false → c.torus = false → eassign c p = none) ∧
@@ -44,6 +45,18 @@ theorem C10_exp_assignment_rule (c : ECfg) (hw : c.WF) (p : Pos) :
 theorem C10_wrap_is_periodic_image (lo w x : Int) (hw : 0 < w) :
     lo ≤ lo + (x - lo) % w ∧ lo + (x - lo) % w < lo + w ∧ ∃ k : Int, lo + (x - lo) % w = x + k * w :=
   ⟨(wrap_bounds lo w x hw).1, (wrap_bounds lo w x hw).2, wrap_congr lo w x⟩
+
+/-- Experimental torus, the stored value itself (not the bare expression): for a point `p` with one coordinate per axis,
+    what an out-of-bounds assignment stores has again one coordinate per axis, and its `i`-th coordinate is `p[i]` moved
+    by a whole number of sizes of axis `i` into `[min_i, max_i)` — so a `torus_correct` that returned, say, the lower
+    corner would not do.  Legacy: the third clause of `C10_legacy_assignment_rule`. -/
+theorem C10_exp_wrap_is_periodic_image (c : ECfg) (hw : c.WF) (p : Pos) (hl : p.length = c.dims.length)
+    (hout : inBounds c.dims p = false) (ht : c.torus = true) :
+    ∃ p', eassign c p = some p' ∧ p'.length = c.dims.length ∧
+      ∀ i (h1 : i < c.dims.length) (h2 : i < p.length) (h3 : i < p'.length),
+        c.dims[i].1 ≤ p'[i] ∧ p'[i] < c.dims[i].2 ∧ ∃ k : Int, p'[i] = p[i] + k * (c.dims[i].2 - c.dims[i].1) :=
+  ⟨torusCorrect c.dims p, by simp [eassign, hout, ht], torusCorrect_length _ _ hl,
+    fun i h1 h2 h3 => torusCorrect_getElem c.dims hw p hl i h1 h2 h3⟩
 
 /-! ## positions and membership over all histories -/
 
@@ -127,63 +140,35 @@ theorem C10_exp_index_maps_consistent (c : ECfg) (cap : Nat) (ops : List EOp) :
     validate: `C10_exp_raw_view_write`, and the example below it, show an agent put outside a bounded space that way). -/
 theorem C10_exp_positions_inside (c : ECfg) (hw : c.WF) (ops : List EOp)
     (hraw : ∀ i p, EOp.raw i p ∈ ops → inBounds c.dims p = true) :
-    ∀ a p, (espec c ops).pos a = some p → inBounds c.dims p = true := by
-  suffices H : ∀ (ops : List EOp) (st : ESpec), (∀ i p, EOp.raw i p ∈ ops → inBounds c.dims p = true) →
-      (∀ a p, st.pos a = some p → inBounds c.dims p = true) →
-      ∀ a p, (ops.foldl (especStep c) st).pos a = some p → inBounds c.dims p = true from
-    H ops _ hraw (by simp)
-  intro ops
-  induction ops with
-  | nil => intro st _ h; exact h
-  | cons op ops ih =>
-    intro st hraw h
-    apply ih _ (fun i p hm => hraw i p (List.mem_cons_of_mem _ hm))
-    have hassign : ∀ (a : Aid) (p : Pos) (b : Aid) (q : Pos),
-        (match eassign c p with
-          | some p' => ({ st with pos := upd st.pos a (some p') } : ESpec)
-          | none => st).pos b = some q → inBounds c.dims q = true := by
-      intro a p b q hb
-      split at hb
-      · rename_i p' hp
-        by_cases hba : b = a
-        · simp only [upd, hba, if_true, Option.some.injEq] at hb; subst hb
-          exact eassign_inBounds c hw hp
-        · simp only [upd, hba, if_false] at hb; exact h b q hb
-      · exact h b q hb
-    cases op with
-    | new a =>
-      simp only [especStep]; split
-      · exact h
-      · intro b q hb
-        by_cases hba : b = a
-        · simp [upd, hba] at hb
-        · simp only [upd, hba, if_false] at hb; exact h b q hb
-    | set a p =>
-      simp only [especStep]; split
-      · exact hassign a p
-      · exact h
-    | remove a =>
-      simp only [especStep]; split
-      · intro b q hb
-        by_cases hba : b = a
-        · simp [upd, hba] at hb
-        · simp only [upd, hba, if_false] at hb; exact h b q hb
-      · exact h
-    | iadd a v =>
-      simp only [especStep]; split
-      · split
-        · rename_i q _; exact hassign a (vadd q v)
-        · exact h
-      · exact h
-    | raw i p =>
-      simp only [especStep]; split
-      · rename_i a _
-        intro b q hb
-        by_cases hba : b = a
-        · simp only [upd, hba, if_true, Option.some.injEq] at hb; subst hb
-          exact hraw i p (List.mem_cons_self ..)
-        · simp only [upd, hba, if_false] at hb; exact h b q hb
-      · exact h
+    ∀ a p, (espec c ops).pos a = some p → inBounds c.dims p = true :=
+  espec_pos_invariant c (fun p => inBounds c.dims p = true) ops
+    (fun _ _ _ _ hp => eassign_inBounds c hw hp) (fun _ _ _ _ _ _ hp => eassign_inBounds c hw hp) hraw
+
+/-- … and "inside the bounds" means what it says.  `inBounds`, `torusCorrect`, `vadd` and the distance functions pair
+    coordinates with axes and stop at the shorter list, so for vectors of the wrong length the conclusion above would be met
+    by `[]`.  In every history whose vectors have one coordinate per axis (`WfOps`; what numpy does to other vectors is
+    `C10_exp_vector_lengths` and `C10_exp_history_vectors_normalise`), every position the space holds has exactly one
+    coordinate per axis, and coordinate `i` lies in `[min_i, max_i]`. -/
+theorem C10_exp_positions_wellformed (c : ECfg) (hw : c.WF) (ops : List EOp) (hwf : WfOps c ops)
+    (hraw : ∀ i p, EOp.raw i p ∈ ops → inBounds c.dims p = true) :
+    ∀ a p, (espec c ops).pos a = some p →
+      p.length = c.dims.length ∧
+      ∀ i (h1 : i < c.dims.length) (h2 : i < p.length), c.dims[i].1 ≤ p[i] ∧ p[i] ≤ c.dims[i].2 := by
+  intro a p hp
+  have hlen : p.length = c.dims.length :=
+    espec_pos_invariant c (fun p => p.length = c.dims.length) ops
+      (fun a q hm p' he => eassign_length c he (hwf _ hm q rfl))
+      (fun a v q hm hq p' he => eassign_length c he (by rw [vadd_length q v (by rw [hwf _ hm v rfl, hq]), hq]))
+      (fun i q hm => hwf _ hm q rfl) a p hp
+  exact ⟨hlen, fun i h1 h2 => inBounds_getElem c.dims p (C10_exp_positions_inside c hw ops hraw a p hp) i h1 h2⟩
+
+/-- Without the assumption on the writes through the view: every recorded position still has one coordinate per axis. -/
+theorem C10_exp_positions_have_dimension (c : ECfg) (ops : List EOp) (hwf : WfOps c ops) :
+    ∀ a p, (espec c ops).pos a = some p → p.length = c.dims.length :=
+  espec_pos_invariant c (fun p => p.length = c.dims.length) ops
+    (fun a q hm p' he => eassign_length c he (hwf _ hm q rfl))
+    (fun a v q hm hq p' he => eassign_length c he (by rw [vadd_length q v (by rw [hwf _ hm v rfl, hq]), hq]))
+    (fun i q hm => hwf _ hm q rfl)
 
 /-! ## calls the property allows never raise -/
 
@@ -257,6 +242,97 @@ theorem C10_exp_iadd_is_assignment (c : ECfg) (cap : Nat) (ops : List EOp) (a : 
   · rw [e]; exact hv.1 p' hp
   · have := hv.2.1 hp
     exact ⟨by rw [e]; exact this, by simp only [estep, e, this]⟩
+
+/-! ## "last assigned", in closed form (no bookkeeping function in the statement) -/
+
+/-- Experimental, every pair of histories and every initial capacity: if agent `a` of the space is assigned `p`, the
+    assignment rule stores `p'` for `p`, and none of the calls that follow is about `a` (no assignment, `+=`, removal of `a`,
+    no write through the view into the row `a` has at that moment) — whatever they do to other agents: creations with
+    re-allocation, removals with compaction of `a`'s row, writes — then `a` is still in the space and reports `p'`. -/
+theorem C10_exp_last_assignment (c : ECfg) (cap : Nat) (pre post : List EOp) (a : Aid) (p p' : Pos) :
+    a ∈ (erun c cap pre).active → eassign c p = some p' →
+    (∀ k (hk : k < post.length), (post[k]).target (erun c cap (pre ++ [EOp.set a p] ++ post.take k)) ≠ some a) →
+    a ∈ (erun c cap (pre ++ [EOp.set a p] ++ post)).active ∧
+    agentGet (erun c cap (pre ++ [EOp.set a p] ++ post)) a = .ok p' := by
+  intro ha hp hpost
+  obtain ⟨s', h1, h2⟩ := (C10_exp_valid_calls_succeed c cap pre a p ha).1 p' hp
+  have hstep : erun c cap (pre ++ [EOp.set a p]) = s' := by
+    simp only [erun, List.foldl_append, List.foldl_cons, List.foldl_nil, estep]
+    show (match agentSet (erun c cap pre) a p with | .ok s' => s' | .error _ => erun c cap pre) = s'
+    rw [h1]
+  have hmem : a ∈ (erun c cap (pre ++ [EOp.set a p])).active := by
+    rw [(erun_refines c cap (pre ++ [EOp.set a p])).active]
+    have : espec c (pre ++ [EOp.set a p]) = especStep c (espec c pre) (EOp.set a p) := by simp [espec, List.foldl_append]
+    rw [this]
+    exact especStep_members_frame c _ _ a (by rw [← (erun_refines c cap pre).active]; exact ha) (by simp)
+  obtain ⟨f1, f2⟩ := erun_frame_fold c cap a post (pre ++ [EOp.set a p]) hmem hpost
+  refine ⟨f1, ?_⟩
+  rw [agentGet_of_mem (erun_refines c cap _).inv f1, f2, ← agentGet_of_mem (erun_refines c cap _).inv hmem, hstep]
+  exact h2
+
+/-- Experimental: a freshly created agent has no assigned position, and the code gives it none (`_add_agent` only reserves the
+    next row; the constructor's `self.position[:] = np.nan` is commented out).  It is appended to `space.agents`, and until its
+    first assignment it reports whatever that row holds — uninitialised memory, or the stale copy compaction left there of an
+    agent removed earlier (example below: the new agent reads the removed agent's last position) — and every query computes
+    with that row.  The property speaks about assigned positions only, so this is outside its quantifier (harness assumption
+    "assigned before read"); the bookkeeping `espec` says `none` for it, which leaves the agent unconstrained in
+    `C10_exp_positions_all_histories` until it is assigned (`C10_exp_last_assignment`). -/
+theorem C10_exp_fresh_agent (c : ECfg) (cap : Nat) (ops : List EOp) (a : Aid) :
+    let s := erun c cap ops
+    a ∉ s.active → (espec c ops).removed a = false →
+    (erun c cap (ops ++ [.new a])).active = s.active ++ [a] ∧
+    (espec c (ops ++ [.new a])).pos a = none ∧
+    getPos (erun c cap (ops ++ [.new a])) a = .ok (s.buf s.active.length) := by
+  dsimp only
+  intro ha hr
+  have h := erun_refines c cap ops
+  have h' := erun_refines c cap (ops ++ [.new a])
+  have hf : (erun c cap ops).a2i a = none := (h.inv.not_mem_iff a).mp ha
+  have hg : (erun c cap ops).gone a = false := by rw [h.gone]; exact hr
+  have hstep : erun c cap (ops ++ [.new a]) = addAgent (erun c cap ops) a := by
+    simp only [erun, List.foldl_append, List.foldl_cons, List.foldl_nil, estep]
+    have hf' : (List.foldl estep (einit c cap) ops).a2i a = none := hf
+    have hg' : (List.foldl estep (einit c cap) ops).gone a = false := hg
+    simp [hf', hg']
+  have hidx : (erun c cap (ops ++ [.new a])).a2i a = some (erun c cap ops).n := by
+    rw [hstep]; simp [addAgent, upd]
+  refine ⟨by rw [hstep]; rfl, ?_, ?_⟩
+  · have hm : a ∉ (espec c ops).members := by rw [← h.active]; exact ha
+    have hm' : a ∉ (List.foldl (especStep c) ⟨[], fun _ => none, fun _ => false⟩ ops).members := hm
+    have hr' : (List.foldl (especStep c) ⟨[], fun _ => none, fun _ => false⟩ ops).removed a = false := hr
+    simp [espec, List.foldl_append, especStep, hm', hr', upd]
+  · rw [getPos_of_idx h'.inv hidx, hstep, h.inv.len]; rfl
+
+/-- Experimental, every history: every agent of the space has a row — reading its position never raises, whether or not it has
+    been assigned one (the bookkeeping of `C10_exp_positions_all_histories` says what it reads only once it was assigned). -/
+theorem C10_exp_every_agent_has_a_row (c : ECfg) (cap : Nat) (ops : List EOp) (a : Aid) :
+    a ∈ (erun c cap ops).active → ∃ q, agentGet (erun c cap ops) a = .ok q ∧ getPos (erun c cap ops) a = .ok q := by
+  intro ha
+  have h := (erun_refines c cap ops).inv
+  obtain ⟨i, hi⟩ := (h.mem_iff a).mp ha
+  exact ⟨_, by rw [agentGet_of_mem h ha]; exact getPos_of_idx h hi, getPos_of_idx h hi⟩
+
+/-- Legacy, every pair of histories: if `a` is placed at (or, being in the space, moved to) `p`, the assignment rule stores
+    `p'` for `p`, and no later call places, moves or removes `a` — whatever is done to other agents and whenever the cache is
+    built, patched or dropped — then `a` is in the space and its `pos` is `p'`. -/
+theorem C10_legacy_last_assignment (c : LCfg) (pre post : List LOp) (a : Aid) (p p' : P2) (byMove : Bool) :
+    (byMove = true → a ∈ (lrun c pre).agents) → torusAdj c p = .ok p' →
+    (∀ op ∈ post, ∀ b q, (op = .place b q ∨ op = .move b q ∨ op = .remove b) → b ≠ a) →
+    a ∈ (lrun c (pre ++ [if byMove then .move a p else .place a p] ++ post)).agents ∧
+    (lrun c (pre ++ [if byMove then .move a p else .place a p] ++ post)).pos a = some p' := by
+  intro hm hp hpost
+  rw [(C10_legacy_positions_all_histories c _).1, (C10_legacy_positions_all_histories c _).2]
+  simp only [lspec, List.foldl_append, List.foldl_cons, List.foldl_nil]
+  apply lspec_fold_frame c a p' post hpost
+  · cases byMove with
+    | true =>
+      have := hm rfl
+      rw [(C10_legacy_positions_all_histories c pre).1] at this
+      simpa [lspecStep, hp, lspec] using this
+    | false =>
+      simp only [Bool.false_eq_true, if_false, lspecStep, hp]
+      split <;> simp [*]
+  · cases byMove <;> simp [lspecStep, hp, upd]
 
 /-- Experimental life cycle, every history: an agent object whose `remove()` was executed is out of the space
     for good — it is not in `space.agents`, no query returns it (`C10_exp_radius_exact`, … range over
@@ -818,14 +894,14 @@ theorem C10_exp_radius_exact (c : ECfg) (cap : Nat) (ops : List EOp) (pt : Pos) 
       exact (List.filter_sublist).map _
     exact h.inv.nodup.sublist this
 
-/-- Experimental: `calculate_distances(pt)` pairs every agent in the space with the distance to its
-    true position. -/
+/-- Experimental: `calculate_distances(pt)` lists the agents of the space in the order of `space.agents`, each once, paired
+    with the distance to its true position. -/
 theorem C10_exp_distances_exact (c : ECfg) (cap : Nat) (ops : List EOp) (pt : Pos) (a : Aid) (d : Int) :
     let s := erun c cap ops
-    (∃ l, distancesOf s pt none = .ok l ∧ ((a, d) ∈ l ↔
+    (∃ l, distancesOf s pt none = .ok l ∧ l.map (·.1) = s.active ∧ ((a, d) ∈ l ↔
       a ∈ s.active ∧ ∃ q, getPos s a = .ok q ∧ d = edist2 c pt q)) := by
   have h := erun_refines c cap ops
-  refine ⟨_, rfl, ?_⟩
+  refine ⟨_, rfl, zip_calcD2_fst h.inv pt, ?_⟩
   rw [mem_zip_calcD2 h.inv, h.cfg]
   constructor
   · rintro ⟨q, h1, h2, h3⟩; exact ⟨h1, q, h2, h3⟩
@@ -1042,14 +1118,12 @@ theorem C10_argsortPart_spec : ArgPartSpec argsortPart := argsortPart_spec
 
 /-! ## distances and headings -/
 
-/-- On a torus of circumference `s`, for coordinates at most `s` apart (any two points of the space), the
-    per-axis separation every distance computation uses is the distance to the nearest periodic image:
-    it is below `|a - b + k·s|` for every integer `k` and equals it for some `k ∈ {-1, 0, 1}`. -/
-theorem C10_torus_axis_is_nearest_image (s a b : Int) (hs : 0 < s) (hd : iabs (a - b) ≤ s) :
-    (∀ k : Int, axisDist true s a b ≤ iabs (a - b + k * s)) ∧
-    (axisDist true s a b = iabs (a - b) ∨ axisDist true s a b = iabs (a - b + 1 * s) ∨
-      axisDist true s a b = iabs (a - b + (-1) * s)) :=
-  ⟨axisDist_torus_le_image s a b hs hd, axisDist_torus_attained s a b hd⟩
+/-- On a torus of circumference `s` the per-axis separation every distance computation uses is, for ANY two coordinates
+    (inside the bounds or not: after repair CS3 the separation is reduced modulo `s` first), the distance to the nearest
+    periodic image: it is below `|a - b + k·s|` for every integer `k` and equals it for some `k`. -/
+theorem C10_torus_axis_is_nearest_image (s a b : Int) (hs : 0 < s) :
+    (∀ k : Int, axisDist true s a b ≤ iabs (a - b + k * s)) ∧ ∃ k : Int, axisDist true s a b = iabs (a - b + k * s) :=
+  ⟨axisDist_torus_le_image s a b hs, axisDist_torus_attained s a b hs⟩
 
 /-- without a torus the per-axis separation is `|a - b|`: the distance is Euclidean -/
 theorem C10_flat_axis_is_abs (s a b : Int) : axisDist false s a b = iabs (a - b) := axisDist_flat s a b
@@ -1060,34 +1134,34 @@ theorem C10_flat_axis_is_abs (s a b : Int) : axisDist false s a b = iabs (a - b)
     edge `b - a ∓ s` when it is longer.  On the tie — `b` exactly half-way round, `|b - a| = s/2`, both images
     equally long — the code takes the image through the edge, which is `a - b`: the heading then points *away* from
     `b`'s direct position (`heading = -(b - a)`), and swapping the two points flips it. -/
-theorem C10_torus_heading_cases (s a b : Int) (hd : iabs (b - a) ≤ s) :
+theorem C10_torus_heading_cases (s a b : Int) (hs : 0 < s) (hd : iabs (b - a) ≤ s) :
     (2 * iabs (b - a) < s → axisHeading true s a b = b - a) ∧
     (2 * iabs (b - a) = s → axisHeading true s a b = a - b ∧ axisHeading true s b a = b - a) ∧
     (s < 2 * iabs (b - a) → axisHeading true s a b = b - a - sgn (b - a) * s) := by
-  have h1 := axisHeading_torus_cases s a b hd
-  have h2 := axisHeading_torus_cases s b a (by rw [iabs_sub_comm]; exact hd)
+  have h1 := axisHeading_torus_cases s a b hs hd
+  have h2 := axisHeading_torus_cases s b a hs (by rw [iabs_sub_comm]; exact hd)
   refine ⟨h1.1, fun h => ⟨h1.2.1 h, h2.2.1 (by rw [iabs_sub_comm]; exact h)⟩, h1.2.2⟩
 
-/-- … in every case (tie included) following the heading from `a` arrives at `b` or at one of its two neighbouring
-    periodic images, and no periodic image of `b` is nearer than the heading is long. -/
-theorem C10_torus_heading_reaches_target (s a b : Int) (hs : 0 < s) (hd : iabs (a - b) ≤ s) :
-    (a + axisHeading true s a b = b ∨ a + axisHeading true s a b = b + s ∨ a + axisHeading true s a b = b - s) ∧
+/-- … for ANY two coordinates (tie included, inside the bounds or not) following the heading from `a` arrives at a periodic
+    image of `b`, and no periodic image of `b` is nearer than the heading is long. -/
+theorem C10_torus_heading_reaches_target (s a b : Int) (hs : 0 < s) :
+    (∃ k : Int, a + axisHeading true s a b = b + k * s) ∧
     ∀ k : Int, iabs (axisHeading true s a b) ≤ iabs (a - b + k * s) := by
   refine ⟨axisHeading_reaches s a b, fun k => ?_⟩
-  have h1 := axisDist_torus_le_image s a b hs hd k
-  have h0 : 0 ≤ axisDist true s a b := by
-    simp only [axisDist, if_true]; unfold iabs at *; split <;> omega
-  rcases axisHeading_eq_or_neg true s a b (by omega) with h | h <;> rw [h] <;> unfold iabs at * <;> split <;> omega
+  have h1 := axisDist_torus_le_image s a b hs k
+  have h0 := axisDist_nonneg true s a b hs
+  rcases axisHeading_eq_or_neg true s a b hs with h | h <;> rw [h] <;> unfold iabs at * <;> split <;> omega
 
 /-- without a torus the heading is the plain difference -/
 theorem C10_flat_heading_is_difference (s a b : Int) : axisHeading false s a b = b - a := axisHeading_flat s a b
 
-/-- The per-axis separation is 0 for equal coordinates and, on a torus, for the two edges (`|a - b| = s`), nothing else.
-    The experimental space keeps the upper edge inside its bounds, so on an experimental torus the points `min` and
-    `max` of an axis are distinct stored positions at distance 0 (example below); the legacy space excludes the upper
+/-- The per-axis separation is 0 for equal coordinates and, on a torus, for coordinates a whole number of sizes apart,
+    nothing else.  The experimental space keeps the upper edge inside its bounds, so on an experimental torus the points `min`
+    and `max` of an axis are distinct stored positions at distance 0 (example below); the legacy space excludes the upper
     edge (`C10_legacy_zero_distance_iff_same_point`). -/
 theorem C10_axis_zero_distance_iff (t : Bool) (s a b : Int) (hs : 0 < s) :
-    axisDist t s a b = 0 ↔ a = b ∨ (t = true ∧ iabs (a - b) = s) := axisDist_eq_zero_iff t s a b hs
+    axisDist t s a b = 0 ↔ a = b ∨ (t = true ∧ ∃ k : Int, a - b = k * s) := by
+  rw [axisDist_eq_zero_iff t s a b hs, iabs_emod_eq_zero_iff]
 
 /-- Legacy `get_distance` is symmetric. -/
 theorem C10_legacy_distance_symmetric (c : LCfg) (p q : P2) : ldist2 c p q = ldist2 c q p := by
@@ -1126,6 +1200,232 @@ theorem C10_exp_difference_rows_length (c : ECfg) (hw : c.WF) (cap : Nat) (ops :
     intro x _
     simp only [Function.comp, Prod.map, id]
     rw [h.cfg]; exact C10_exp_difference_length c hw pt x.2
+
+/-! ## the distances of the queries are the (toroidal) Euclidean distances of the property
+
+`MetricDist2 dims torus p q d` (Proofs/ContMetric.lean) says, without any function of the model: `d` is the squared Euclidean
+distance of `p` and `q` (bounded space), or the least squared Euclidean distance from `p` to a periodic image of `q`
+(torus: no image `q + (k_1 size_1, …, k_n size_n)` is nearer, one is exactly that far). -/
+
+/-- Experimental, ALL points `p`, `q` with one coordinate per axis (inside the bounds or not — after repair CS3): the number
+    `calculate_distances` computes is the distance of the property, and no other number is. -/
+theorem C10_exp_distance_is_metric (c : ECfg) (hw : c.WF) (p q : Pos) (hp : p.length = c.dims.length)
+    (hq : q.length = c.dims.length) (d : Int) : MetricDist2 c.dims c.torus p q d ↔ d = edist2 c p q :=
+  dist2Aux_metric c.dims hw c.torus p q hp hq d
+
+/-- Legacy, ALL points (after repair CS3): `get_distance` and the row computation of `get_neighbors` (the same formula at two
+    places of the code; the model has one function for both, the correspondence check compares each with it) give the
+    distance of the property. -/
+theorem C10_legacy_distance_is_metric (c : LCfg) (hw : c.WF) (p q : P2) (d : Int) :
+    MetricDist2 c.dims c.torus [p.1, p.2] [q.1, q.2] d ↔ d = ldist2 c p q := by
+  rw [ldist2_eq_dist2Aux]
+  refine dist2Aux_metric c.dims ?_ c.torus _ _ rfl rfl d
+  intro x hx
+  simp only [LCfg.dims, List.mem_cons, List.not_mem_nil, or_false] at hx
+  rcases hx with rfl | rfl
+  · exact hw.1
+  · exact hw.2
+
+/-- Legacy, every history, EVERY query point and radius: `get_neighbors(p, r, include_center)` does not raise and returns
+    exactly the agents of the space whose (toroidal) Euclidean distance to `p` — in the sense of `MetricDist2`, not of the
+    model's own distance function — is at most `|r|` (those at distance 0 only with `include_center`). -/
+theorem C10_legacy_neighbors_metric (c : LCfg) (hw : c.WF) (ops : List LOp) (p : P2) (r : Int) (incl : Bool) :
+    ∃ res, (getNeighbors (lrun c ops) p r incl).2 = .ok res ∧
+      ∀ a, a ∈ res ↔ a ∈ (lrun c ops).agents ∧ ∃ q d, (lrun c ops).pos a = some q ∧
+        MetricDist2 c.dims c.torus [q.1, q.2] [p.1, p.2] d ∧ d ≤ r * r ∧ (incl = true ∨ 0 < d) := by
+  refine ⟨_, (C10_legacy_neighbors_exact c ops p r incl).1, fun a => ?_⟩
+  rw [C10_legacy_neighbors_mem]
+  constructor
+  · rintro ⟨h1, q, hq, h2, h3⟩
+    exact ⟨h1, q, _, hq, (C10_legacy_distance_is_metric c hw q p _).mpr rfl, h2, h3⟩
+  · rintro ⟨h1, q, d, hq, hm, h2, h3⟩
+    have := (C10_legacy_distance_is_metric c hw q p d).mp hm
+    subst this
+    exact ⟨h1, q, hq, h2, h3⟩
+
+/-- Experimental, every history whose vectors have one coordinate per axis, every initial capacity, EVERY query point with
+    one coordinate per axis and every radius: an agent whose last assigned position is `q` is returned by
+    `get_agents_in_radius(pt, r)` with the number `d` iff `d` is the (toroidal) Euclidean distance of the property between
+    `pt` and `q` and `0 ≤ r`, `d ≤ r²`. -/
+theorem C10_exp_radius_metric (c : ECfg) (hw : c.WF) (cap : Nat) (ops : List EOp) (hwf : WfOps c ops) (pt : Pos)
+    (hpt : pt.length = c.dims.length) (r : Int) (a : Aid) (q : Pos) (hq : (espec c ops).pos a = some q) (d : Int) :
+    (a, d) ∈ agentsInRadius (erun c cap ops) pt r ↔ MetricDist2 c.dims c.torus pt q d ∧ 0 ≤ r ∧ d ≤ r * r := by
+  have hget := ((C10_exp_positions_all_histories c cap ops).2.1 a q hq).2
+  have hlen := C10_exp_positions_have_dimension c ops hwf a q hq
+  have hmem : a ∈ (erun c cap ops).active := by
+    apply Classical.byContradiction; intro hn
+    rw [getPos_of_not_mem (erun_refines c cap ops).inv hn] at hget; cases hget
+  rw [(C10_exp_radius_exact c cap ops pt r).1 a d, C10_exp_distance_is_metric c hw pt q hpt hlen d]
+  constructor
+  · rintro ⟨_, q', h1, h2, h3, h4⟩
+    rw [hget] at h1; cases h1
+    exact ⟨h2, h3, h4⟩
+  · rintro ⟨h2, h3, h4⟩
+    exact ⟨hmem, q, hget, h2, h3, h4⟩
+
+/-- Experimental k-nearest in the same terms: in a history whose vectors have one coordinate per axis and in which every
+    agent of the space has been assigned a position, for every query point with one coordinate per axis,
+    `get_k_nearest_agents(pt, k)` (`1 ≤ k ≤ n`, any admissible `argpartition`) returns `k` distinct agents, each with the
+    (toroidal) Euclidean distance of the property to its last assigned position, and no agent left out is nearer. -/
+theorem C10_exp_k_nearest_metric (argpart : List Int → Nat → List Nat) (hap : ArgPartSpec argpart)
+    (c : ECfg) (hw : c.WF) (cap : Nat) (ops : List EOp) (hwf : WfOps c ops)
+    (hall : ∀ a ∈ (espec c ops).members, (espec c ops).pos a ≠ none)
+    (pt : Pos) (hpt : pt.length = c.dims.length) (k : Nat) :
+    let s := erun c cap ops
+    1 ≤ k → k ≤ s.active.length →
+    ∃ res, kNearest argpart s pt k = .ok res ∧ res.length = k ∧ (res.map (·.1)).Nodup ∧
+      (∀ ad ∈ res, ∃ q, (espec c ops).pos ad.1 = some q ∧ MetricDist2 c.dims c.torus pt q ad.2) ∧
+      (∀ ad ∈ res, ∀ b ∈ (espec c ops).members, b ∉ res.map (·.1) →
+        ∀ q e, (espec c ops).pos b = some q → MetricDist2 c.dims c.torus pt q e → ad.2 ≤ e) := by
+  intro s hk hkn
+  have h := erun_refines c cap ops
+  obtain ⟨res, h1, h2, h3, h4, h5⟩ := C10_exp_k_nearest argpart hap c cap ops pt k hk hkn
+  have hpos : ∀ b ∈ s.active, ∃ q, (espec c ops).pos b = some q ∧ getPos s b = .ok q ∧ q.length = c.dims.length := by
+    intro b hb
+    have hb' : b ∈ (espec c ops).members := by rw [← h.active]; exact hb
+    cases hq : (espec c ops).pos b with
+    | none => exact absurd hq (hall b hb')
+    | some q => exact ⟨q, rfl, h.pos b q hq, C10_exp_positions_have_dimension c ops hwf b q hq⟩
+  refine ⟨res, h1, h2, h3, ?_, ?_⟩
+  · intro ad had
+    obtain ⟨hm, q', hq', hd⟩ := h4 ad had
+    obtain ⟨q, e1, e2, e3⟩ := hpos ad.1 hm
+    have hqq : q = q' := by rw [e2] at hq'; exact Except.ok.inj hq'
+    subst hqq
+    exact ⟨q, e1, (C10_exp_distance_is_metric c hw pt q hpt e3 _).mpr hd⟩
+  · intro ad had b hb hout q e hq hm
+    have hb' : b ∈ s.active := by rw [h.active]; exact hb
+    have hlen := C10_exp_positions_have_dimension c ops hwf b q hq
+    have := (C10_exp_distance_is_metric c hw pt q hpt hlen e).mp hm
+    subst this
+    exact h5 ad had b hb' hout q (h.pos b q hq)
+
+/-- Experimental `agent.get_neighbors_in_radius(r)` (`r ≥ 0`) in the same terms: for an agent whose last assigned position is `p`,
+    in a history whose vectors have one coordinate per axis, the call does not raise, and another agent `b` whose last assigned
+    position is `q` is returned with the number `d` iff `d` is the (toroidal) Euclidean distance of the property between `p` and
+    `q` and `d ≤ r²`; the agent itself is never returned. -/
+theorem C10_exp_neighbors_in_radius_metric (c : ECfg) (hw : c.WF) (cap : Nat) (ops : List EOp) (hwf : WfOps c ops)
+    (a : Aid) (p : Pos) (hp : (espec c ops).pos a = some p) (r : Int) (hr : 0 ≤ r) :
+    ∃ res, neighborsInRadius (erun c cap ops) a r = .ok res ∧ (∀ d, (a, d) ∉ res) ∧
+      ∀ b q, (espec c ops).pos b = some q → b ≠ a → ∀ d,
+        ((b, d) ∈ res ↔ MetricDist2 c.dims c.torus p q d ∧ d ≤ r * r) := by
+  have h := erun_refines c cap ops
+  have hget : ∀ b q, (espec c ops).pos b = some q → getPos (erun c cap ops) b = .ok q ∧ b ∈ (erun c cap ops).active := by
+    intro b q hq
+    have hg := h.pos b q hq
+    refine ⟨hg, ?_⟩
+    apply Classical.byContradiction; intro hn
+    rw [getPos_of_not_mem h.inv hn] at hg; cases hg
+  obtain ⟨hpa, hma⟩ := hget a p hp
+  obtain ⟨res, h1, h2⟩ := C10_exp_neighbors_in_radius c hw cap ops a p r hma hpa hr
+  refine ⟨res, h1, fun d hd => ((h2 a d).mp hd).1 rfl, fun b q hq hba d => ?_⟩
+  obtain ⟨hpb, hmb⟩ := hget b q hq
+  have hlp := C10_exp_positions_have_dimension c ops hwf a p hp
+  have hlq := C10_exp_positions_have_dimension c ops hwf b q hq
+  rw [h2 b d, C10_exp_distance_is_metric c hw p q hlp hlq d]
+  constructor
+  · rintro ⟨_, _, q', e1, e2, e3⟩
+    have : q = q' := by rw [hpb] at e1; exact Except.ok.inj e1
+    subst this
+    exact ⟨e2, e3⟩
+  · rintro ⟨e2, e3⟩
+    exact ⟨hba, hmb, q, hpb, e2, e3⟩
+
+/-- Legacy `get_heading(p, q)` for ANY two points: following it from `p` arrives at `q` (bounded space) or at a periodic image of
+    `q` (torus), and its squared length is the (toroidal) Euclidean distance of the property — it is a shortest vector from `p`
+    to an image of `q`. -/
+theorem C10_legacy_heading_metric (c : LCfg) (hw : c.WF) (p q : P2) :
+    (c.torus = false → (p.1 + (lheading c p q).1, p.2 + (lheading c p q).2) = q) ∧
+    (c.torus = true → ∃ kx ky : Int,
+      (p.1 + (lheading c p q).1, p.2 + (lheading c p q).2) = (q.1 + kx * c.width, q.2 + ky * c.height)) ∧
+    MetricDist2 c.dims c.torus [p.1, p.2] [q.1, q.2] (sq (lheading c p q).1 + sq (lheading c p q).2) := by
+  refine ⟨fun ht => ?_, fun ht => ?_, ?_⟩
+  · simp only [lheading, ht, axisHeading_flat]
+    apply Prod.ext <;> simp <;> omega
+  · obtain ⟨kx, hx⟩ := axisHeading_reaches c.width p.1 q.1
+    obtain ⟨ky, hy⟩ := axisHeading_reaches c.height p.2 q.2
+    exact ⟨kx, ky, by simp only [lheading, ht, hx, hy]⟩
+  · rw [C10_legacy_distance_is_metric c hw p q]
+    exact C10_legacy_heading_length c hw p q
+
+/-- Experimental `calculate_difference_vector`: for ANY two points with one coordinate per axis the squared length of the
+    difference vector is the (toroidal) Euclidean distance of the property. -/
+theorem C10_exp_difference_metric (c : ECfg) (hw : c.WF) (p q : Pos) (hp : p.length = c.dims.length)
+    (hq : q.length = c.dims.length) : MetricDist2 c.dims c.torus p q (norm2 (ediff c p q)) := by
+  rw [C10_exp_distance_is_metric c hw p q hp hq]
+  exact C10_exp_difference_length c hw p q
+
+/-! ### histories with vectors of any length reduce to histories with vectors of the right length -/
+
+/-- Every history of calls with vectors of ANY length leaves the space exactly as the history does in which each vector is
+    replaced by what numpy broadcasts it to and the calls numpy rejects are dropped — and that history is well-formed
+    (`WfOps`).  So the theorems with a `WfOps` hypothesis cover every history the code can run (on spaces with `nd ≥ 2`; on a
+    1-D space numpy broadcasts the other way round: not modelled). -/
+theorem C10_exp_history_vectors_normalise (c : ECfg) (cap : Nat) (ops : List EOp) :
+    erunV c cap ops = erun c cap (ops.filterMap (normOp c.dims.length)) ∧
+    WfOps c (ops.filterMap (normOp c.dims.length)) := by
+  constructor
+  · suffices H : ∀ (ops : List EOp) (s : ESpace), s.cfg = c →
+        ops.foldl estepV s = (ops.filterMap (normOp c.dims.length)).foldl estep s ∧
+        (ops.foldl estepV s).cfg = c from (H ops _ rfl).1
+    intro ops
+    induction ops with
+    | nil => intro s hs; exact ⟨rfl, hs⟩
+    | cons op ops ih =>
+      intro s hs
+      have hnd : s.nd = c.dims.length := by simp [ESpace.nd, hs]
+      have key : estepV s op = (match normOp c.dims.length op with | some op' => estep s op' | none => s) := by
+        cases op with
+        | new a => rfl
+        | remove a => rfl
+        | set a p =>
+          simp only [estepV, normOp, agentSetV, hnd]
+          cases hb : bcast c.dims.length p with
+          | error e => cases hg : s.gone a <;> simp
+          | ok q => rfl
+        | iadd a v =>
+          simp only [estepV, normOp, agentIaddV, hnd]
+          cases hb : bcast c.dims.length v with
+          | error e => cases hget : agentGet s a <;> rfl
+          | ok w => rfl
+        | raw i p =>
+          simp only [estepV, normOp, rawWriteV, hnd]
+          cases hb : bcast c.dims.length p with
+          | error e => by_cases hlt : i < s.view <;> simp [hlt]
+          | ok q => rfl
+      simp only [List.foldl_cons, List.filterMap_cons]
+      rw [key]
+      cases hn : normOp c.dims.length op with
+      | none => exact ih s hs
+      | some op' => exact ih (estep s op') (by rw [estep_cfg]; exact hs)
+  · intro op hop v hv
+    obtain ⟨o, _, ho⟩ := List.mem_filterMap.mp hop
+    have hb : ∀ p q, bcast c.dims.length p = .ok q → q.length = c.dims.length := by
+      intro p q h
+      unfold bcast at h
+      split at h
+      · cases h; assumption
+      · split at h
+        · cases h; simp
+        · cases h
+    cases o with
+    | new a => simp [normOp] at ho; subst ho; simp [EOp.vec] at hv
+    | remove a => simp [normOp] at ho; subst ho; simp [EOp.vec] at hv
+    | set a p =>
+      simp only [normOp] at ho
+      split at ho
+      · rename_i q hq; cases ho; simp only [EOp.vec, Option.some.injEq] at hv; subst hv; exact hb p q hq
+      · cases ho
+    | iadd a p =>
+      simp only [normOp] at ho
+      split at ho
+      · rename_i q hq; cases ho; simp only [EOp.vec, Option.some.injEq] at hv; subst hv; exact hb p q hq
+      · cases ho
+    | raw a p =>
+      simp only [normOp] at ho
+      split at ho
+      · rename_i q hq; cases ho; simp only [EOp.vec, Option.some.injEq] at hv; subst hv; exact hb p q hq
+      · cases ho
 
 /-! ## non-vacuity: concrete histories (torus with negative origin; capacity 0 with growth and compaction) -/
 section Examples
@@ -1235,6 +1535,46 @@ example : holdView (erun exK 5 (exKrm.take 4)) = ⟨5, 2⟩ := by decide
 example : (heldWrite (erun exK 5 exKrm) ⟨5, 2⟩ 0 [9]).toOption.map (fun s => agentGet s 2) = some (.ok [9]) := by rfl
 example : (heldWrite (erun exK 5 exKrm) ⟨5, 2⟩ 1 [9]).toOption.map (fun s => agentGet s 2) = some (.ok [6]) := by rfl
 example : (hrun exK 5 exKrm).read ⟨5, 2⟩ = [[6], [6]] := by rfl
+/-! repair CS3: a query point outside the bounds of a torus stands for its periodic image.  Torus `[0,640)²` (10 x 10 units), an
+agent at the origin, query point 25 units out: the toroidal distance is 5 units (before the repair the code said 15) -/
+def exTorL : LCfg := { xmin := 0, xmax := 640, ymin := 0, ymax := 640, torus := true }
+example : ldist2 exTorL (0, 0) (1600, 0) = 320 * 320 := by decide
+example : (getNeighbors (lrun exTorL [.place 1 (0, 0)]) (1600, 0) 320 true).2 = .ok [1] := by rfl
+example : lheading exTorL (0, 0) (1600, 0) = (-320, 0) := by decide
+example : lheading exTorL (0, 0) (1536, 0) = (256, 0) := by decide
+def exTorE : ECfg := { dims := [(0, 640), (0, 640)], torus := true }
+example : agentsInRadius (erun exTorE 0 [.new 1, .set 1 [0, 0]]) [1600, 0] 320 = [(1, 320 * 320)] := by decide
+example : ediff exTorE [1600, 0] [0, 0] = [320, 0] := by decide
+/-- the hypotheses of `C10_exp_distance_is_metric` / `C10_exp_radius_metric` are met by that point, and the distance is attained
+    by the image two sizes away -/
+example : exTorE.WF := by intro d hd; simp [exTorE] at hd; rcases hd with rfl | rfl <;> decide
+example : imgDist2 exTorE.dims [-2, 0] [1600, 0] [0, 0] = edist2 exTorE [1600, 0] [0, 0] := by decide
+example : WfOps exTorE [.new 1, .set 1 [0, 0]] := by
+  intro op hop v hv; simp at hop; rcases hop with rfl | rfl <;> simp [EOp.vec] at hv; subst hv; rfl
+example : (espec exTorE [.new 1, .set 1 [0, 0]]).pos 1 = some [0, 0] := by decide
+/-! a torus k-nearest through the edge; `get_nearest_neighbors` with a coincident agent; legacy query → move → query -/
+example : kNearest (fun _ _ => [0, 1, 2]) (erun exTorE 0 [.new 1, .set 1 [10, 10], .new 2, .set 2 [630, 630], .new 3, .set 3 [320, 320]]) [0, 0] 2 =
+    .ok [(1, 200), (2, 200)] := by rfl
+example : nearestNeighbors (fun _ _ => [0, 1, 2]) (erun exTorE 0 [.new 1, .set 1 [10, 10], .new 2, .set 2 [10, 10], .new 3, .set 3 [320, 320]]) 2 1 =
+    .ok [(1, 0)] := by rfl
+example : (getNeighbors (lrun exTorL [.place 1 (0, 0), .place 2 (64, 0), .nbrs (0, 0) 64 true, .move 2 (600, 0)]) (0, 0) 64 true).2 = .ok [1, 2] := by
+  rfl
+example : (getNeighbors (lrun exTorL [.place 1 (0, 0), .place 2 (64, 0), .nbrs (0, 0) 64 true, .move 2 (320, 0)]) (0, 0) 64 true).2 = .ok [1] := by
+  rfl
+/-! the closed form of "last assigned" and the fresh agent: agent 1 is assigned, then removed agents' rows are compacted around it;
+the new agent 2 of the reviewer's history reads the stale row of the removed agent 1 -/
+example : agentGet (erun exE 0 ([.new 1, .new 2] ++ [EOp.set 2 [1, 2, 3]] ++ [.new 3, .remove 1, .new 4, .set 4 [0, 0, 0]])) 2 = .ok [1, 2, 3] := by
+  rfl
+example : getPos (erun exE 0 [.new 1, .set 1 [1, 2, 3], .remove 1, .new 2]) 2 = .ok [1, 2, 3] := by rfl
+example : (espec exE [.new 1, .set 1 [1, 2, 3], .remove 1, .new 2]).pos 2 = none := by decide
+example : (lrun exL ([.place 1 (0, 0), .place 2 (5, 5)] ++ [LOp.move 2 (700, 64)] ++ [.nbrs (0, 0) 64 true, .remove 1, .place 3 (1, 1)])).pos 2 =
+    some (60, 64) := by decide
+/-! vectors of any length: the history with a broadcast `[5]` and a rejected `[5, 5]` is the well-formed history with `[5, 5, 5]` -/
+example : [EOp.new 1, .set 1 [5], .set 1 [6, 6], .iadd 1 [1]].filterMap (normOp 3) = [.new 1, .set 1 [5, 5, 5], .iadd 1 [1, 1, 1]] := by
+  decide
+example : agentGet (erunV exE 0 [.new 1, .set 1 [5], .set 1 [6, 6], .iadd 1 [1]]) 1 = .ok [6, 6, 6] := by rfl
+/-! the wrapped value: `[700, -10]` on the torus `[0,640]²` is stored as `[60, 630]` -/
+example : eassign exTorE [700, -10] = some [60, 630] := by decide
 end Examples
 
 end Mesa.Cont
